@@ -167,7 +167,7 @@ func c09Probe(w *mintops.W) {
 }
 
 func c09Specs(quick bool) []*bfs.Spec {
-	d := 3
+	d := 4
 	if !quick {
 		d = 5
 	}
